@@ -166,6 +166,11 @@ def value_attr(I, v, name):
             return SList([v.index.len, v.values.shape[1]], "tuple")
         if name == "ndim":
             return 2
+        if name == "T":
+            a = v.values
+            return SArr((a.shape[1], a.shape[0]), lambda i, j: a.fn(j, i), a.dtype, "ndarray")
+        if name == "values":
+            return v.values.with_kind("ndarray")
         if name == "columns":
             if v.columns is None:
                 raise Undecided("frame columns")
@@ -1200,3 +1205,80 @@ def run_ctxmgr(I, fv, genv, body, wnode, env):
 from . import libnp  # noqa: E402,F401  (registers numpy / pandas models)
 from .libnp import getitem, setitem  # noqa: E402,F401
 from .libpd import series_binop  # noqa: E402,F401
+
+
+# =========================================================================== abstract estimators / ghost trace
+
+class Event:
+    """one call on an abstract object, recorded in ctx.trace"""
+
+    def __init__(self, obj, method, args, kwargs, result=None, loop_k=None):
+        self.obj = obj
+        self.method = method
+        self.args = list(args)
+        self.kwargs = dict(kwargs)
+        self.result = result
+        self.loop_k = loop_k
+
+    def arg(self, i, name=None, default=None):
+        if i is not None and i < len(self.args):
+            return self.args[i]
+        if name is not None and name in self.kwargs:
+            return self.kwargs[name]
+        return default
+
+    def __repr__(self):
+        return f"<event {self.obj.tag}.{self.method}({', '.join(map(repr, self.args))}{', ' if self.kwargs else ''}{self.kwargs if self.kwargs else ''})>"
+
+
+SELF_RETURNING = {"fit", "update", "set_params", "partial_fit"}
+
+
+def ghost_fun(I, name, sort):
+    """R_name(k): the value returned by the abstract call `name` in iteration k of the enclosing cut loop"""
+    memo = I.ctx.__dict__.setdefault("ghost_funs", {})
+    if name not in memo:
+        memo[name] = z3.Function("ret_" + name, z3.IntSort(), sort)
+    return memo[name]
+
+
+def default_abstract_call(I, obj, name, args, kwargs):
+    ctx = I.ctx
+    ev = Event(obj, name, args, kwargs, None, getattr(ctx, "loop_k", None))
+    ctx.trace.append(ev)
+    if name in SELF_RETURNING:
+        obj.gen += 1
+        ev.result = obj
+        return obj
+    builder = getattr(obj, "results", {}).get(name)
+    if builder is not None:
+        ev.result = builder(I, obj, ev)
+        return ev.result
+    if name == "get_params":
+        ev.result = SDict(getattr(obj, "params", {}))
+        return ev.result
+    r = Opaque(f"{obj.tag}.{name}()", prov=ev)
+    ev.result = r
+    return r
+
+
+@lib("sklearn.base.clone")
+def sk_clone(I, args, kwargs):
+    o = args[0]
+    if isinstance(o, AbstractObj):
+        c = AbstractObj(f"clone({o.tag})", o.isa, dict(getattr(o, "init_attrs", {})), dict(o.methods))
+        c.clone_of = o
+        c.results = dict(getattr(o, "results", {}))
+        c.params = dict(getattr(o, "params", {}))
+        c.absent = set(getattr(o, "absent", ()))
+        c.closed_isa = getattr(o, "closed_isa", False)
+        c.isnot = set(getattr(o, "isnot", ()))
+        I.ctx.trace.append(Event(o, "clone", [], {}, c, getattr(I.ctx, "loop_k", None)))
+        return c
+    if isinstance(o, SObj):
+        # sklearn.clone(estimator): new unfitted object built from get_params() -- constructor called with the
+        # (cloned) parameters.  Modelled for repo classes by re-running the real __init__ on the parameter values.
+        raise Undecided("clone of a concrete repo estimator")
+    if isinstance(o, SList):
+        return SList([sk_clone(I, [x], {}) for x in o.items], o.kind)
+    raise Undecided(f"clone({o!r})")
